@@ -61,6 +61,14 @@ def check_ode(rep, drv, rng, ode, text, label, mirror_case=None):
             return
         saved = open(path).read()
         c2 = pipeline.Case(drv, saved)
+        if c2.err is not None and "InconsistentAssumptions" in str(c2.err):
+            # sympy's global assumption cache, filled by the hundreds of models this process has loaded before, can hold a fact that
+            # contradicts what it derives for an unevaluated 0 - 1*0 of this file (thorough run, seed 91: the same file loads in a
+            # fresh process).  The property is about the model, not about this process: judge the load with the cache cleared
+            import sympy.core.cache
+            sympy.core.cache.clear_cache()
+            c2 = pipeline.Case(drv, saved)
+            rep.count("reloaded_after_clearing_sympy_cache")
         pipeline.check_parser(rep, drv, saved, "saved file")
         if c2.err is not None:
             rep.violation(f"the saved file is rejected by the loader: {c2.err}: {repr(c2.exc)[:140]}",
